@@ -34,6 +34,12 @@ class RawX12File(object):
         self.fd = fin
         self.buffer = None
         line = self.fd.read(ISA_LEN)
+        while len(line) < ISA_LEN:
+            # a stream may return fewer characters than asked for
+            more = self.fd.read(ISA_LEN - len(line))
+            if more == '':
+                break
+            line += more
         if line[:3] != 'ISA':
             err_str = "First line does not begin with 'ISA': %s" % line[:3]
             raise pyx12.errors.X12Error(err_str)
@@ -58,17 +64,20 @@ class RawX12File(object):
         Split the input stream on the delimiter and remove any leading CR-LF
         """
         while True:
-            if self.buffer.find(self.seg_term) == -1:
+            while self.buffer.find(self.seg_term) == -1:
                 # Need more data
-                self.buffer += self.fd.read(DEFAULT_BUFSIZE)
+                data = self.fd.read(DEFAULT_BUFSIZE)
+                if data == '':
+                    break
+                self.buffer += data
             if self.buffer.find(self.seg_term) == -1:
-                # Still have no segment terminator
+                # End of input: no further segment terminator
                 break
             # Get first segment in buffer
             (line, self.buffer) = self.buffer.split(self.seg_term, 1)
             line = line.lstrip('\n\r')
             if line == '':
-                break
+                continue
             yield(line)
 
     def get_term(self):
